@@ -110,6 +110,10 @@ type Explorer struct {
 	MaxDepth int
 	// Stop blocks end a path when entered.
 	Stop map[*ssa.BasicBlock]bool
+	// StopPred restricts a stop block to entries from the given predecessor
+	// (a loop's exit block stops the path only when the loop ran out, not
+	// when it is reached by a break).
+	StopPred map[*ssa.BasicBlock]*ssa.BasicBlock
 	// NoReturn names callees that never return (process exit).
 	NoReturn func(name string) bool
 	// MaxVisits bounds how often one path may enter the same block.
@@ -300,7 +304,7 @@ func (e *Explorer) Run(fn *ssa.Function, start *ssa.BasicBlock, pred *ssa.BasicB
 }
 
 func (e *Explorer) block(fn *ssa.Function, b, pred *ssa.BasicBlock, st *State, first bool, emit func(Outcome)) {
-	if !first && e.Stop[b] && st.depth == 0 {
+	if !first && e.Stop[b] && st.depth == 0 && (e.StopPred[b] == nil || e.StopPred[b] == pred) {
 		o := Outcome{Effects: st.effects, End: "stop", StopBlock: b, From: pred, Unknown: st.unknown, PhiIn: map[*ssa.Phi]string{}, st: st}
 		if pred != nil {
 			for _, in := range b.Instrs {
